@@ -582,6 +582,63 @@ theorem iso_K_posdef (s : IsoSetup K) (hmu : 0 < s.mu) (hnu : s.nu < 1)
     mul_nonneg (sub_nonneg.2 h2) (mul_self_nonneg c)]
 end isoK
 
+/-! ### the entry point `solve_volterra_dislocation` and the in-plane refusal of the isotropic solver -/
+section dispatchThms
+variable {K : Type} [Field K] [LinearOrder K] [IsStrictOrderedRing K]
+
+theorem absF_eq_abs (v : K) : absF v = |v| := by
+  unfold absF; split_ifs with h
+  · exact (abs_of_neg h).symm
+  · exact (abs_of_nonneg (not_lt.1 h)).symm
+
+/-- what the coded in-plane test of `IsotropicVolterraDislocation.solve` guarantees when it does not raise. -/
+theorem isoInPlaneOk_bound (tol : K) (b n : Vec K) (h : isoInPlaneOk tol b n = true) :
+    |dot b n| ≤ tol * maxAbs3 b := by
+  simp only [isoInPlaneOk, Bool.not_eq_true', decide_eq_false_iff_not, not_lt, absF_eq_abs] at h
+  exact h
+
+/-- **jump of an accepted isotropic solution**: for every Burgers vector the isotropic solver *accepts* (the coded
+    test `|b·n| ≤ tol·max|bᵢ|`, orthonormal frame) the coded displacement changes by `b` up to `tol·max|bᵢ|·|n_c|` per
+    component when `theta` goes once around the line; with `b·n = 0` exactly it is `b` (`iso_burgers_jump`).  Before
+    repo fix 9765d33 nothing was refused and the deviation was the whole component `(b·n) n` (`iso_jump_general`). -/
+theorem iso_accept_jump (log : K → K) (pi θ tol : K) (s : IsoSetup K) (pos : Vec K) (hpi : pi ≠ 0)
+    (hm : dot s.m s.m = 1) (hn : dot s.n s.n = 1) (hmn : dot s.m s.n = 0)
+    (hacc : isoInPlaneOk tol s.b s.n = true) (c : Fin 3) :
+    |isoDisplacement log pi (θ + 2 * pi) s pos c - isoDisplacement log pi θ s pos c - s.b c|
+      ≤ tol * maxAbs3 s.b * |s.n c| := by
+  have fr := frame_resolution s.m s.n s.b hm hn hmn c
+  have j := iso_jump_general log pi θ s pos hpi c
+  have e : isoDisplacement log pi (θ + 2 * pi) s pos c - isoDisplacement log pi θ s pos c - s.b c
+      = -(dot s.b s.n * s.n c) := by
+    rw [j]; simp only [IsoSetup.be, IsoSetup.bs, IsoSetup.ξ]; linear_combination -fr
+  rw [e, abs_neg, abs_mul]
+  exact mul_le_mul_of_nonneg_right (isoInPlaneOk_bound tol s.b s.n hacc) (abs_nonneg _)
+
+/-- the dispatcher hands out the isotropic closed form only for a Burgers vector that passed the in-plane test, so
+    whatever `solve_volterra_dislocation` returns as the isotropic solution has the jump bound of `iso_accept_jump`
+    (the Stroh branch has jump `= b` by `burgers_closure`). -/
+theorem dispatch_iso_jump (log : K → K) (pi θ tol : K) (s : IsoSetup K) (pos : Vec K) (hpi : pi ≠ 0)
+    (hm : dot s.m s.m = 1) (hn : dot s.n s.n = 1) (hmn : dot s.m s.n = 0) (sOk isoN : Bool)
+    (hd : dispatch sOk isoN (isoInPlaneOk tol s.b s.n) = some Solver.iso) (c : Fin 3) :
+    |isoDisplacement log pi (θ + 2 * pi) s pos c - isoDisplacement log pi θ s pos c - s.b c|
+      ≤ tol * maxAbs3 s.b * |s.n c| := by
+  have h : isoInPlaneOk tol s.b s.n = true := by
+    revert hd; cases sOk <;> cases isoN <;> cases isoInPlaneOk tol s.b s.n <;> simp [dispatch, isoAccept]
+  exact iso_accept_jump log pi θ tol s pos hpi hm hn hmn h c
+end dispatchThms
+
+/-- whenever `Stroh` solves the problem the dispatcher returns the anisotropic solution — however close to isotropic
+    the constants are. -/
+theorem dispatch_stroh_first (isoN inPl : Bool) : dispatch true isoN inPl = some Solver.stroh := rfl
+
+theorem dispatch_iso_iff (sOk isoN inPl : Bool) :
+    dispatch sOk isoN inPl = some Solver.iso ↔ (sOk = false ∧ isoN = true ∧ inPl = true) := by
+  cases sOk <;> cases isoN <;> cases inPl <;> simp [dispatch, isoAccept]
+
+theorem dispatch_none_iff (sOk isoN inPl : Bool) :
+    dispatch sOk isoN inPl = none ↔ (sOk = false ∧ (isoN = false ∨ inPl = false)) := by
+  cases sOk <;> cases isoN <;> cases inPl <;> simp [dispatch, isoAccept]
+
 /-! ### the analytic statements (Mathlib's complex logarithm, arctan, log): derivatives, limits at the cut -/
 section analysis
 open Complex
@@ -889,6 +946,11 @@ example : dot exIso.m exIso.m = 1 ∧ dot exIso.n exIso.n = 1 ∧ dot exIso.m ex
     ∧ 0 < exIso.mu ∧ exIso.nu < 1 := by
   decide +kernel
 example : (2 : ℚ) ≠ 0 ∧ (1 : ℚ) * 1 + 2 * 2 ≠ 0 := by norm_num
+example : isoInPlaneOk (1 / 100000000 : ℚ) exIso.b exIso.n = true := by decide +kernel
+example : isoInPlaneOk (1 / 100000000 : ℚ) (fun i => if i = 1 then 3 / 10 else 1) (fun i => if i = 1 then 1 else 0) = false := by
+  decide +kernel
+example : dispatch false true (isoInPlaneOk (1 / 100000000 : ℚ) exIso.b exIso.n) = some Solver.iso := by decide +kernel
+
 
 /-- six modes meeting the hypotheses of `burgers_jump_limit` (`pₐ = ±i`, `Aₐ = Lₐ = e_{⌊a/2⌋}`, `kₐ = ½`),
     with `m = x`, `n = y` of `exSetupC`. -/
